@@ -191,3 +191,65 @@ def replay_history(ops, kinds=None):
     finally:
         ctx = saved
     return ("history on a fresh context: " + describe(ops), not ok, "a lookup does not return the most recently added version (or an absent page is found)")
+
+
+# ---------------------------------------------------------------- committed content through a new context on the same file
+# where the database file lies relative to the directory tempfile.gettempdir() reports (redirected to a scratch directory
+# for the duration of one history): a file DIRECTLY in that directory is the throw-away database create_db() makes for
+# db_path=None and is deleted by close_db_conn() by design - not part of the claim; every other place must survive.
+DB_PLACES = ["sub/p.db", "sub/deeper/p.db", "../elsewhere/p.db", "../tmpdir_sibling/p.db", "sub/wikitextprocessor_tempdb1"]
+REOPEN_PAGES = [("Foo", 0, "b0"), ("Template:Bar", 10, "b1"), ("Template:Old", 10, None)]
+
+
+def _reopen_bad(place: int, n_pages: int, how: int):
+    """how: 0 close_db_conn() then reopen; 1 db_conn.commit() and reopen while the first context is still open;
+    2 close, reopen, close again, reopen again"""
+    import shutil
+    import tempfile
+    from pathlib import Path
+
+    root = Path(tempfile.mkdtemp(prefix="verif_c10_"))
+    saved = tempfile.tempdir
+    try:
+        (root / "tmpdir").mkdir()
+        tempfile.tempdir = str(root / "tmpdir")
+        p = (root / "tmpdir" / DB_PLACES[place]).resolve()
+        p.parent.mkdir(parents=True, exist_ok=True)
+        w = Wtp(db_path=p, quiet=True, quiet_output=True)
+        want = []
+        for title, ns, body in REOPEN_PAGES[:n_pages]:
+            w.add_page(title, ns, body, redirect_to=None if body is not None else "Template:Bar")
+            want.append((title, ns, body, None if body is not None else "Template:Bar"))
+        if how == 1:
+            w.db_conn.commit()
+        else:
+            w.close_db_conn()
+        w2 = Wtp(db_path=p, quiet=True, quiet_output=True)
+        if how == 2:
+            w2.close_db_conn()
+            w2 = Wtp(db_path=p, quiet=True, quiet_output=True)
+        got = sorted((pg.title, pg.namespace_id, pg.body, pg.redirect_to) for pg in w2.get_all_pages())
+        look = [(t, ns, w2.page_exists(t, ns)) for t, ns, _b, _r in want]
+        w2.db_conn.close()
+        if how == 1:
+            w.db_conn.close()
+        bad = got != sorted(want) or not all(x[2] for x in look)
+        sig = f"Wtp(db_path=<tempdir>/{DB_PLACES[place]}); {n_pages} add_page; " + ["close_db_conn()", "db_conn.commit()", "close_db_conn(); reopen; close_db_conn()"][how] + "; Wtp(db_path=same).get_all_pages()"
+        return sig, bad, f"pages read through the new context {got}, page_exists {look}; committed {sorted(want)}"
+    finally:
+        tempfile.tempdir = saved
+        shutil.rmtree(root, ignore_errors=True)
+
+
+def reopen_step(place, n_pages, how) -> bool:
+    from crosshair.tracers import NoTracing, is_tracing
+
+    if is_tracing():
+        place, n_pages, how = _pick(place, len(DB_PLACES)), 1 + _pick(n_pages - 1, len(REOPEN_PAGES)), _pick(how, 3)
+        with NoTracing():
+            return not _reopen_bad(place, n_pages, how)[1]
+    return not _reopen_bad(place, n_pages, how)[1]
+
+
+def replay_reopen(place, n_pages, how):
+    return _reopen_bad(place, n_pages, how)
